@@ -9,16 +9,17 @@ compiled clause that receives the goal in a variable bound at run time."""
 import random
 
 from ..core import Check
-from ..terms import A, V, C, clause, call, and_
+from ..terms import A, I, V, C, clause, call, and_
 
 KEYS = [{"n": "p", "k": 1}, {"n": "q", "k": 0}, {"n": "r", "k": 2}, {"n": "u", "k": 1}, {"n": "w", "k": 0}]
 
-FACTS_FULL = [C("p", A("a")), C("p", A("b")), C("p", C("f", V(0))), C("p", V(0)), A("q"),
+FACTS_FULL = [C("p", A("a")), C("p", A("b")), C("p", I(70000)), C("p", C("f", V(0))), C("p", V(0)), A("q"),
               C("r", A("a"), A("b")), C("r", V(0), V(0))]
-FACTS_QUICK = [C("p", A("a")), C("p", A("b")), C("p", V(0)), A("q"), C("r", V(0), V(0)), C("r", A("a"), A("b"))]
-PATS_FULL = [C("p", A("a")), C("p", V(0)), C("p", C("f", A("a"))), A("q"), C("r", V(0), V(1)), C("r", V(0), V(0)),
+# (an integer above CPython's small-integer cache: every occurrence is built as an object of its own)
+FACTS_QUICK = [C("p", A("a")), C("p", I(70000)), C("p", V(0)), A("q"), C("r", V(0), V(0)), C("r", A("a"), A("b"))]
+PATS_FULL = [C("p", A("a")), C("p", I(70000)), C("p", V(0)), C("p", C("f", A("a"))), A("q"), C("r", V(0), V(1)), C("r", V(0), V(0)),
              C("r", A("a"), V(0)), C("u", V(0)), A("w")]
-PATS_QUICK = [C("p", A("a")), C("p", V(0)), A("q"), C("r", V(0), A("b")), C("r", V(0), V(0)), C("u", V(0)), A("w")]
+PATS_QUICK = [C("p", A("a")), C("p", I(70000)), C("p", V(0)), A("q"), C("r", V(0), A("b")), C("r", V(0), V(0)), C("u", V(0)), A("w")]
 
 
 def nvars(t):
@@ -147,6 +148,8 @@ def run(tier, seed):
         from . import c14
         chk.machine_family("ops-within-one-body", c14.body_scenarios(), features=features)
         chk.machine_family("after-clear", [clear_scenario(ops)], features=features)
+        from .. import gen as _g
+        chk.machine_family("more-than-32-facts-under-one-key", _g.scale_groups()["manyfacts"], {"budget_extra": 20000000, "must_complete": True}, features=features, max_steps=8000)
         chk.exhaustive = True
     else:
         ops = menu(FACTS_FULL, PATS_FULL)            # 51 operations
@@ -160,6 +163,9 @@ def run(tier, seed):
         chk.machine_family("after-clear", [clear_scenario(q)], features=features)
         from . import c14
         chk.machine_family("ops-within-one-body", c14.body_scenarios(), features=features)
+        from .. import gen as _g
+        chk.machine_family("more-than-32-facts-under-one-key", _g.scale_groups()["manyfacts"], {"budget_extra": 20000000, "must_complete": True}, features=features, max_steps=8000)
+        chk.machine_family("more-than-1024-facts-under-one-key", _g.scale_groups()["manyfacts-big"], {"budget_extra": 200000000, "must_complete": True}, features=features, max_steps=30000)
         chk.exhaustive = True
     # random API sessions (loads, registrations, asserts through both routes, queries advanced step by
     # step and abandoned between updates, clears) over unusual term shapes; decided by the machine
